@@ -865,6 +865,427 @@ def real_search(ctx):
             real_sequence(ctx, rng, suite, rng.random() < 0.5, 2, 70000)
 
 
+# --------------------------------------------------------------------------
+# real Transport pair over an in-memory relay with recording packetizers
+
+
+class PipeSock:
+    """In-memory socket endpoint; bytes sent go through `on_send` (the relay)."""
+
+    def __init__(self):
+        import threading
+        self.buf = bytearray()
+        self.cv = threading.Condition()
+        self.timeout = None
+        self.closed = False
+        self.eof = False
+        self.on_send = None
+
+    def feed(self, data):
+        with self.cv:
+            self.buf += data
+            self.cv.notify_all()
+
+    def send(self, data):
+        if self.closed:
+            raise EOFError()
+        self.on_send(bytes(data))
+        return len(data)
+
+    def recv(self, n):
+        import socket
+        with self.cv:
+            if not self.buf and not self.eof and not self.closed:
+                self.cv.wait(self.timeout)
+            if self.buf:
+                out = bytes(self.buf[:n])
+                del self.buf[:n]
+                return out
+            if self.eof or self.closed:
+                return b""
+            raise socket.timeout()
+
+    def settimeout(self, t):
+        self.timeout = t
+
+    def close(self):
+        with self.cv:
+            self.closed = True
+            self.cv.notify_all()
+
+    def pending(self):
+        with self.cv:
+            return len(self.buf)
+
+
+class Relay:
+    """client <-> server wire; records client->server bytes, can hold them back and inject."""
+
+    def __init__(self):
+        import threading
+        self.c = PipeSock()
+        self.s = PipeSock()
+        self.lock = threading.Lock()
+        self.c2s = bytearray()
+        self.forwarded = 0
+        self.hold_at = None
+        self.c.on_send = self._from_client
+        self.s.on_send = self.c.feed
+
+    def _from_client(self, data):
+        with self.lock:
+            self.c2s += data
+            self._flush()
+
+    def _flush(self):
+        end = len(self.c2s) if self.hold_at is None else min(len(self.c2s), self.hold_at)
+        if end > self.forwarded:
+            self.s.feed(bytes(self.c2s[self.forwarded:end]))
+            self.forwarded = end
+
+    def hold_now(self):
+        with self.lock:
+            self.hold_at = len(self.c2s)
+
+    def release(self):
+        with self.lock:
+            self.hold_at = None
+            self._flush()
+
+    def inject_to_server(self, data):
+        self.s.feed(data)
+
+
+def make_rec_packetizer():
+    import threading
+    from paramiko.packet import Packetizer
+
+    class RecPacketizer(Packetizer):
+        """Logs payloads handed to send_message / returned by read_message and per-packet wire sizes."""
+
+        def __init__(self, sock):
+            super().__init__(sock)
+            self.sent_log = []
+            self.recv_log = []
+            self.wire_log = []          # (payload type or None for raw writes, nbytes)
+            self._rec_lock = threading.RLock()
+            self._cur = None
+            self.after_send = None      # hook(type, index) called while still serialised
+
+        def send_message(self, data):
+            with self._rec_lock:
+                raw = data.asbytes()
+                self.sent_log.append(raw)
+                self._cur = raw[0]
+                try:
+                    super().send_message(data)
+                finally:
+                    self._cur = None
+                if self.after_send is not None:
+                    self.after_send(raw[0], len(self.sent_log) - 1)
+
+        def write_all(self, out):
+            self.wire_log.append((self._cur, len(out)))
+            super().write_all(out)
+
+        def read_message(self):
+            cmd, msg = super().read_message()
+            self.recv_log.append(bytes([cmd]) + msg.asbytes())
+            return cmd, msg
+
+    return RecPacketizer
+
+
+def make_server_iface():
+    import paramiko
+
+    class Srv(paramiko.ServerInterface):
+        def check_auth_password(self, username, password):
+            return paramiko.AUTH_SUCCESSFUL if password == "pw" else paramiko.AUTH_FAILED
+
+        def get_allowed_auths(self, username):
+            return "password"
+
+        def check_channel_request(self, kind, chanid):
+            return paramiko.OPEN_SUCCEEDED
+
+    return Srv()
+
+
+def first_deviation(recv, sent):
+    for i, m in enumerate(recv):
+        if i >= len(sent) or sent[i] != m:
+            return i
+    return None
+
+
+def transport_session(ctx, compression, cipher=None, mac=None, rekey=False, replay_across_epochs=False):
+    """One real client/server Transport session.  Returns a dict with the logs and what happened."""
+    import logging
+    import time
+    import paramiko
+    lg = logging.getLogger("paramiko")
+    if not any(isinstance(h, logging.NullHandler) for h in lg.handlers):
+        lg.addHandler(logging.NullHandler())
+        lg.propagate = False
+    from paramiko.common import MSG_NEWKEYS
+    Rec = make_rec_packetizer()
+    relay = Relay()
+    tc = paramiko.Transport(relay.c, packetizer_class=Rec)
+    ts = paramiko.Transport(relay.s, packetizer_class=Rec)
+    res = {"compression": compression, "cipher": cipher, "mac": mac, "rekey": rekey, "error": None,
+           "steps": []}
+    try:
+        for t in (tc, ts):
+            so = t.get_security_options()
+            so.compression = (compression,)
+            if cipher:
+                so.ciphers = (cipher,)
+            if mac:
+                so.digests = (mac,)
+        ts.add_server_key(paramiko.ECDSAKey.generate())
+        newkeys_sent = []
+
+        def after_send(mtype, idx):
+            if mtype == MSG_NEWKEYS:
+                newkeys_sent.append(idx)
+                if replay_across_epochs and len(newkeys_sent) == 2:
+                    relay.hold_now()            # nothing after the client's 2nd NEWKEYS reaches the server
+        tc.packetizer.after_send = after_send
+
+        def scenario():
+            import threading
+            ts.start_server(event=threading.Event(), server=make_server_iface())
+            tc.connect(username="u", password="pw")
+            res["steps"].append("auth")
+            ch = tc.open_session(timeout=10)
+            sch = ts.accept(10)
+            res["steps"].append("channel")
+            data = bytes(range(256)) * 8
+            ch.sendall(data)
+            got = b""
+            while len(got) < len(data):
+                x = sch.recv(65536)
+                if not x:
+                    break
+                got += x
+            sch.sendall(got[::-1])
+            back = b""
+            while len(back) < len(data):
+                x = ch.recv(65536)
+                if not x:
+                    break
+                back += x
+            if got != data or back != data[::-1]:
+                raise RuntimeError("channel data corrupted")
+            res["steps"].append("data")
+            if rekey or replay_across_epochs:
+                tc.renegotiate_keys()
+                res["steps"].append("rekey")
+                if not replay_across_epochs:
+                    ch.sendall(b"after-rekey" * 20)
+                    n = 0
+                    while n < 220:
+                        x = sch.recv(65536)
+                        if not x:
+                            break
+                        n += len(x)
+                    res["steps"].append("data2")
+            return True
+
+        from common import with_watchdog
+        st, val = with_watchdog(scenario, 25.0)
+        if st == "exc":
+            res["error"] = "%s: %s" % (type(val).__name__, str(val)[:200])
+        elif st == "hang":
+            res["error"] = "HANG(25s)"
+
+        if replay_across_epochs and res["error"] is None:
+            # wait until the server has consumed the client's second NEWKEYS (inbound keys switched)
+            t0 = time.time()
+            while time.time() - t0 < 10:
+                nk = sum(1 for m in ts.packetizer.recv_log if m[0] == MSG_NEWKEYS)
+                if nk >= 2 and relay.s.pending() == 0:
+                    break
+                time.sleep(0.01)
+            time.sleep(0.05)
+            # the first encrypted client packets of epoch 1 (sent right after the first NEWKEYS)
+            wl = tc.packetizer.wire_log
+            off = 0
+            idx = None
+            seen = 0
+            offsets = []
+            for k, (typ, n) in enumerate(wl):
+                offsets.append(off)
+                off += n
+            pk = [k for k, (typ, n) in enumerate(wl) if typ == MSG_NEWKEYS]
+            if len(pk) >= 2:
+                first = pk[0] + 1
+                nrep = min(3, pk[1] - first)
+                start = offsets[first]
+                end = offsets[first + nrep]
+                recorded = bytes(relay.c2s[start:end])
+                before = len(ts.packetizer.recv_log)
+                relay.inject_to_server(recorded)
+                t0 = time.time()
+                while time.time() - t0 < 3.0 and ts.is_active() and len(ts.packetizer.recv_log) < before + nrep:
+                    time.sleep(0.01)
+                time.sleep(0.05)
+                res["replayed"] = {"packets": nrep, "bytes": recorded.hex(),
+                                   "types": [wl[first + i][0] for i in range(nrep)]}
+                res["server_delivered_after_replay"] = [m.hex() for m in ts.packetizer.recv_log[before:]]
+                res["server_active_after_replay"] = ts.is_active()
+        res["c_sent"] = list(tc.packetizer.sent_log)
+        res["s_recv"] = list(ts.packetizer.recv_log)
+        res["s_sent"] = list(ts.packetizer.sent_log)
+        res["c_recv"] = list(tc.packetizer.recv_log)
+    finally:
+        relay.release()
+        for t in (tc, ts):
+            try:
+                t.close()
+            except Exception:  # noqa
+                pass
+    return res
+
+
+def transport_roundtrip_oracle(ctx, res, key_prefix="transport"):
+    """Messages read by one side must be exactly (a prefix of) the messages the other side sent."""
+    desc = {k: res[k] for k in ("compression", "cipher", "mac", "rekey", "steps", "error")}
+    bad = False
+    for name, recv, sent in (("server->client", res.get("c_recv", []), res.get("s_sent", [])),
+                             ("client->server", res.get("s_recv", []), res.get("c_sent", []))):
+        i = first_deviation(recv, sent)
+        if i is not None:
+            bad = True
+            ctx.fail("%s-stream-differs-%s" % (key_prefix, res["compression"].split("@")[0]),
+                     "a real Transport peer decoded a message that differs from what the other side sent "
+                     "(direction %s, message #%d)" % (name, i),
+                     case=dict(desc, direction=name, index=i,
+                               sent_types=[m[0] for m in sent[:i + 2]]),
+                     expected=sent[i].hex()[:400] if i < len(sent) else "(nothing was sent at this position)",
+                     observed=recv[i].hex()[:400])
+    return bad
+
+
+def transport_checks(ctx):
+    """Full sessions (kex, auth, channel data, re-key) for every compression setting the transport offers."""
+    from paramiko.transport import Transport
+    rng = ctx.rng
+    comps = list(Transport._compression_info.keys())
+    ciphers = list(Transport._cipher_info.keys())
+    plans = [(c, None, None, c != "none") for c in comps]
+    extra = 6 if ctx.thorough else 1
+    for _ in range(extra):
+        ci = rng.choice(ciphers)
+        ma = None if "gcm" in ci else rng.choice(list(Transport._mac_info.keys()))
+        plans.append((rng.choice(comps), ci, ma, rng.random() < 0.5))
+    for comp, ci, ma, rk in plans:
+        res = transport_session(ctx, comp, ci, ma, rekey=rk)
+        ctx.count(("transport", comp, ci, ma, rk), kind="transport-" + comp.split("@")[0] + ("-delayed" if "@" in comp else ""))
+        bad = transport_roundtrip_oracle(ctx, res)
+        if not bad and res["error"] is not None:
+            # no decoded message deviates: retry once before believing a broken session
+            res2 = transport_session(ctx, comp, ci, ma, rekey=rk)
+            if not transport_roundtrip_oracle(ctx, res2) and res2["error"] is not None:
+                ctx.fail("transport-session-broken-" + comp.split("@")[0],
+                         "a real client/server session over the packet layer did not complete",
+                         case={k: res2[k] for k in ("compression", "cipher", "mac", "rekey", "steps")},
+                         expected="auth, channel, data" + (", rekey, data2" if rk else ""), observed=res2["error"])
+
+
+def concurrent_senders(ctx, real_zlib):
+    """Two threads inside send_message with compression on: thread A is parked inside the compressor
+    (between deflate's compress() and flush() for real zlib) while thread B tries to send.  Whatever the
+    order, the peer must decode exactly the two messages, each intact (no merging / loss)."""
+    import threading
+    from paramiko.packet import Packetizer
+    from paramiko.compress import ZlibCompressor, ZlibDecompressor
+    rng = ctx.rng
+    a_in = threading.Event()
+    b_done = threading.Event()
+    state = {"first": None}
+
+    def hook():
+        me = threading.current_thread()
+        if state["first"] is None:
+            state["first"] = me
+            a_in.set()
+            b_done.wait(0.4)            # with the write lock held (correct code) B cannot finish: time out
+
+    class ZProxy:
+        def __init__(self, z):
+            self.z = z
+
+        def compress(self, data):
+            out = self.z.compress(data)
+            hook()
+            return out
+
+        def flush(self, *a):
+            return self.z.flush(*a)
+
+    class HookToyComp(ToyComp):
+        def __call__(self, data):
+            z = self.z
+            self.z += 1
+            hook()
+            return bytes([z % 256]) + bytes((b + z) % 256 for b in data)
+
+    cfg = gen_cfg(rng, modes=(1, 2, 3))
+    cfg["iv"] = cfg["iv"][:4] + [0] * 8
+    cfg["comp"] = None
+    cap = CaptureSocket()
+    s = Packetizer(cap)
+    s._initial_kex_done = True
+    install_out(s, cfg)
+    if real_zlib:
+        comp = ZlibCompressor()
+        comp.z = ZProxy(comp.z)
+        s.set_outbound_compressor(comp)
+    else:
+        s.set_outbound_compressor(HookToyComp(7))
+    ma = bytes([94]) + bytes(rng.randrange(256) for _ in range(40))
+    mb = bytes([93]) + bytes(rng.randrange(256) for _ in range(25))
+    errs = []
+
+    def ta():
+        try:
+            s.send_message(mkmsg(ma))
+        except BaseException as e:  # noqa
+            errs.append(repr(e))
+
+    def tb():
+        a_in.wait(3.0)
+        try:
+            s.send_message(mkmsg(mb))
+        except BaseException as e:  # noqa
+            errs.append(repr(e))
+        b_done.set()
+
+    with PinnedUrandom(rng):
+        t1 = threading.Thread(target=ta, daemon=True)
+        t2 = threading.Thread(target=tb, daemon=True)
+        t1.start()
+        t2.start()
+        t1.join(5.0)
+        t2.join(5.0)
+    wire = b"".join(cap.sent)
+    r = Packetizer(FragSocket([wire]))
+    r._initial_kex_done = True
+    install_in(r, cfg)
+    r.set_inbound_compressor(ZlibDecompressor() if real_zlib else ToyDecomp(7))
+    got, fin = read_until_stop(r)
+    ctx.count(("concurrent", real_zlib, repr(cfg), ma, mb), kind="concurrent-senders-" + ("zlib" if real_zlib else "toy"))
+    if errs or sorted(got) != sorted([ma, mb]) or fin != [-1]:
+        ctx.fail("concurrent-senders-merged", "two threads in send_message with compression on: the peer did not "
+                 "decode exactly the two messages (merged / lost / corrupted)",
+                 case={"cfg": cfg, "real_zlib": real_zlib, "msg_a": ma.hex(), "msg_b": mb.hex(),
+                       "schedule": "A parked inside the compressor; B calls send_message; A resumes"},
+                 expected=sorted([ma.hex(), mb.hex()]),
+                 observed={"delivered": [g.hex() for g in got], "fin": fin, "send_errors": errs})
+
+
 def cteq_cases(rng, n):
     out = []
     for _ in range(n):
@@ -896,12 +1317,17 @@ def run(ctx):
                 "initial_kex_done, IV counters near 2^64, random read fragmentation; socket timeouts at random "
                 "positions (mid-header included) with need_rekey set or not, run loop continuing on "
                 "NeedRekeyException; write_all over scripted sockets (partial sends, timeouts, EAGAIN, errors, "
-                "zero returns); real suites: every cipher x "
+                "zero returns); two concurrent senders with compression (one parked inside the compressor); whole "
+                "client/server Transport sessions for every compression mode incl. delayed zlib@openssh.com "
+                "(kex, auth switch-over, channel data, re-key) with recording packetizers; real suites: every cipher x "
                 "MAC x zlib on/off with random keys, fragmentation, key switch; a case is non-trivial when distinct")
     ctx.trusted += ["model coq/Model/C01.v is hand-written; tied to paramiko/packet.py by this differential run "
                     "(vm_compute of the model's own definitions with toy primitives, no extraction)",
                     "real ciphers / HMAC / AES-GCM / zlib: laws are premises of the theorems; exercised by the "
-                    "implementation-level round-trip search only"]
+                    "implementation-level round-trip search only",
+                    "atomicity of send_message (the write lock spans compression, sequence number and write_all) and "
+                    "the point where Transport switches compression on are not modelled; they are covered by the "
+                    "concurrent-senders and whole-session oracles"]
     ctx.assumptions += ["prims_ok: cipher decryptor inverts the encryptor on block multiples and splits on block "
                         "boundaries; AEAD decrypt inverts encrypt, 16-byte tag; decompressor tracks compressor",
                         "block size >= 8, 0 <= MAC size, 0 <= seqno < 2^32 (Transport._activate_*)",
@@ -968,6 +1394,13 @@ def run(ctx):
 
     # ---- 3. real primitives: received == sent ------------------------------------
     real_search(ctx)
+
+    # ---- 3b. concurrent senders with compression on ---------------------------------
+    for rz in (True, False):
+        concurrent_senders(ctx, rz)
+
+    # ---- 4. whole Transport sessions: every compression mode, auth switch-over, re-key ----
+    transport_checks(ctx)
 
 
 def replay(ctx, rep):
